@@ -43,8 +43,8 @@ func runText(c txCase) (o txObs) {
 	if c.Present["P1"] {
 		n1[exNS+"p1"] = "VAL1"
 	}
-	if c.Present["P2"] {
-		n1[exNS+"p2"] = "VAL2"
+	if c.Present["P2"] { // the second placeholder is written with a built-in prefix: {{ core.name }}
+		n1["http://a.ml/vocabularies/core#name"] = "VAL2"
 	}
 	const token = "ZZTEXTTOKENZZ"
 	switch c.Kind {
